@@ -83,8 +83,8 @@ SLOTS = ["□", "1[□]", "0[1|□]", "2(□)", "2(i|□)", "0{:3<|›□}_", "0
          "⟨□|□⟩_", "⟨4|5⟩ƛ□;_", "5@f:1|□;@f;_", "2 3'□;_", "⟨2|1⟩µ□;_", "8 9₌λ□;λ□;__", "4⁽□†_", "1 7ßλ□;_", "⟨6|7⟩vλ□;_"]
 LEAVES = ["n,", "n", "n n+,", "n→a ←a,", "n£¥,"]
 MOD_OPERANDS = ["+", "_", ":", "$", "W", "λ2|:+*;", "λ2|_;", "λ2|$-;", "λ1|:+;", "λ3|W;", "λ0|7;", "λ2|→a ←a;", "λ_;",
-                "λ2|W;", "1", "n", "←a", "λ2|n;", "λ2|+_;", "λ3|__;", "λ2|?;", "λ2|!;", "[1|2]", "(n)", "⟨+⟩", "vN", "~+"]
-MOD_STACKS = ["3 4 ", "3 4 5 ", "⟨1|2⟩ 3 ", "3 ⟨1|2⟩ ", "⟨1|2⟩⟨3|4⟩ ", "", "0 1 ", "1 0 2 "]
+                "λ2|W;", "1", "n", "←a", "λ2|n;", "λ2|+_;", "λ3|__;", "λ2|?;", "λ2|!;", "[1|2]", "(n)", "⟨+⟩", "vN", "~+", "λ3|-+;", "λ3|$-*;", "λ2|-;", "λ3|_$-;"]
+MOD_STACKS = ["3 4 ", "3 4 5 ", "⟨1|2⟩ 3 ", "3 ⟨1|2⟩ ", "⟨1|2⟩⟨3|4⟩ ", "", "0 1 ", "1 0 2 ", "⟨1|2⟩ 5 7 ", "⟨4|6⟩ 7 5 ", "9 ⟨1|2⟩ 5 7 "]
 
 
 def families(tier, rng):
